@@ -6,6 +6,7 @@ package grid
 // counts as a use of every referenced local blob.
 
 import (
+	"os"
 	"bytes"
 	"context"
 	"fmt"
@@ -298,9 +299,20 @@ func (p *c06Pool) runCellOver(rep *vlib.Report, cfg string, sh c06Shape, assign 
 			p.px.Set(cache.CAS, td.Hash, st, td.SizeBytes)
 		case 'A', 'X':
 			// tree blob nowhere (X: treated like absent for the tree digest itself)
+		case 'G', 'T':
+			// the Tree blob is indexed, but its file is gone (G) or cut to 10 bytes (T) behind
+			// the cache's back: reading it fails, which is an absence, not an error
+			_ = p.f.cache.Put(ctx, cache.CAS, td.Hash, td.SizeBytes, bytes.NewReader(tb))
+			for _, fn := range p.f.filesFor(td.Hash) {
+				if assign[treeSlot] == 'G' {
+					_ = os.Remove(fn)
+				} else {
+					_ = os.Truncate(fn, 10)
+				}
+			}
 		}
 		ar.OutputDirectories[0].TreeDigest = td
-		if assign[treeSlot] == 'A' || assign[treeSlot] == 'S' || assign[treeSlot] == 'X' {
+		if c := assign[treeSlot]; c == 'A' || c == 'S' || c == 'X' || c == 'G' || c == 'T' {
 			allThere = false
 		}
 	}
@@ -313,7 +325,7 @@ func (p *c06Pool) runCellOver(rep *vlib.Report, cfg string, sh c06Shape, assign 
 	// a control blob used just before: referenced local blobs must end up more recent
 	ans := p.ask(key)
 	id := fmt.Sprintf("%s shape=[%s] referenced=%s%s -> grpc=%s GET=%d HEAD=%d", cfg, sh.name, string(assign), overName, ans.grpc, ans.httpGet, ans.httpHead)
-	replay := map[string]interface{}{"cell": id, "legend": "P present, A absent, S stored with another size, B backend only, X backend only and larger than max_proxy_blob_size; slots in the order files, tree digest, tree files, stdout, stderr"}
+	replay := map[string]interface{}{"cell": id, "legend": "G/T (tree slot only): Tree blob indexed but its file removed / truncated behind the cache; P present, A absent, S stored with another size, B backend only, X backend only and larger than max_proxy_blob_size; slots in the order files, tree digest, tree files, stdout, stderr"}
 	wantG, wantH := "miss", 404
 	if allThere {
 		wantG, wantH = "hit", 200
@@ -413,6 +425,17 @@ func TestC06(t *testing.T) {
 			continue
 		}
 		enumAssign(k, alphabet, func(a []byte) { p.runCell(rep, cfg, sh, a, "shape") })
+		if sh.tree != "" && !withBackend {
+			// Tree blob indexed but its file is gone, everything else present (without a backend:
+			// with one the blob was written through and is legitimately fetched back). A file
+			// damaged in place is disk corruption, outside this property.
+			_, _, ts := sh.build(func(j int) *pb.Digest { return p.slots[j].present })
+			for _, c := range []byte("G") {
+				a := bytes.Repeat([]byte("P"), k)
+				a[ts] = c
+				p.runCell(rep, cfg, sh, a, "tree-file-fault")
+			}
+		}
 		if k >= 2 {
 			c06Aliases(rep, p, cfg, sh)
 		}
